@@ -141,9 +141,12 @@ Definition tx_fields (t : transaction) : out (list item) :=
   Ok [("version", [zv v]); ("locktime", [l]); ("prea", wl (pwin a)); ("preb", wl (pwin b));
       ("prec", wl (pwin c)); ("weight", [w])].
 
+(* txid() and txid_sha2() are the same function of the preimage in the model (Proofs/HashSpec.v,
+   tx_txid_sha2_eq): it is evaluated once and reported under both names *)
 Definition transaction_items (p : presult transaction) : out (list item) :=
   f <- tx_fields (parsed p) ;;
-  Ok (common (tx_slice (parsed p)) (remaining p) ++ f).
+  h <- tx_txid (parsed p) ;;
+  Ok (common (tx_slice (parsed p)) (remaining p) ++ f ++ [("txidh", map b2n h); ("txidh2", map b2n h)]).
 
 Definition header_fields (h : header) : out (list item) :=
   p <- header_prev_blockhash h ;;
@@ -151,13 +154,16 @@ Definition header_fields (h : header) : out (list item) :=
   Ok [("version", [zv (h_version h)]); ("prev", wl (win p)); ("merkle", wl (win m));
       ("time", [h_time h]); ("nonce", [h_nonce h])].
 
+Definition hash_items (h : list byte) : list item := [("bhash", map b2n h); ("bhash2", map b2n h)].
+
 Definition header_items (p : presult header) : out (list item) :=
   f <- header_fields (parsed p) ;;
-  Ok (common (h_slice (parsed p)) (remaining p) ++ f).
+  Ok (common (h_slice (parsed p)) (remaining p) ++ f ++ hash_items (header_block_hash (parsed p))).
 
 Definition block_items (p : presult block) : out (list item) :=
   f <- header_fields (b_header (parsed p)) ;;
-  Ok (common (b_slice (parsed p)) (remaining p) ++ [("total", [b_total (parsed p)])] ++ f).
+  Ok (common (b_slice (parsed p)) (remaining p) ++ [("total", [b_total (parsed p)])] ++ f ++
+      hash_items (block_block_hash (parsed p))).
 
 Local Close Scope out_scope.
 
